@@ -148,7 +148,32 @@ func collapseUnnamedRuns(ls []leaf) []leaf {
 
 // usedResults (G2): the value result of every sub-decoder call reaches the
 // decoder's result (not blank-assigned, not dead).
-func (c *Ctx) usedResults(rule string, fn *ssa.Function) {
+func (c *Ctx) usedResults(rule string, fn *ssa.Function, anchored ...*ssa.Function) {
+	c.usedResultsIn(rule, fn)
+	// helpers the decoder was split into (not the separately anchored decoders)
+	outer := func(g *ssa.Function) *ssa.Function {
+		for g.Parent() != nil {
+			g = g.Parent()
+		}
+		return g
+	}
+	done := map[*ssa.Function]bool{fn: true}
+	for _, a := range anchored {
+		if a != nil {
+			done[a] = true
+		}
+	}
+	for _, fr := range c.deepViewOf(fn, 4).framesInOrder() {
+		g := outer(fr.fn)
+		if done[g] || !c.P.InLib(g) || g.Synthetic != "" {
+			continue
+		}
+		done[g] = true
+		c.usedResultsIn(rule, g)
+	}
+}
+
+func (c *Ctx) usedResultsIn(rule string, fn *ssa.Function) {
 	counts := map[string]int{}
 	for _, f := range withAnon(fn) {
 		instrsOf(f, func(i ssa.Instruction) {
@@ -308,7 +333,7 @@ func checkC07(c *Ctx) {
 	if rl != nil {
 		e := c.accept()
 		e.Require("G1.header", rl, []*fact{factHeaderSizeZero})
-		c.usedResults("G2.kept", rl)
+		c.usedResults("G2.kept", rl, c.FnOpt("efi/signature.ReadSignatureDatabase"))
 		c.layoutRule("G5.layout", rl, true, nil, []layoutField{
 			{"SignatureType.Data1", 4}, {"SignatureType.Data2", 2}, {"SignatureType.Data3", 2}, {"SignatureType.Data4", 8},
 			{"ListSize", 4}, {"HeaderSize", 4}, {"Size", 4}}, "EFI_SIGNATURE_LIST header")
@@ -373,7 +398,7 @@ func checkC07(c *Ctx) {
 	c.everyIteration("G8.all", c.Fn("G8.all", "efi/signature.WriteSignatureDatabase"), sigPkg+".WriteSignatureList", sigPkg+".SignatureList", "the database encoder writes every list, in order")
 	c.everyIteration("G8.all", c.Fn("G8.all", "efi/signature.WriteSignatureList"), sigPkg+".WriteSignatureData", sigPkg+".SignatureData", "the list encoder writes every entry, in order")
 	if db := c.Fn("G2.kept", "efi/signature.ReadSignatureDatabase"); db != nil {
-		c.usedResults("G2.kept", db)
+		c.usedResults("G2.kept", db, rl)
 	}
 	// K2/K4 keep library-built databases well-formed (shared with C09)
 	c.ruleSizeEquations("K")
@@ -483,7 +508,7 @@ func checkC08(c *Ctx) {
 	// database decoder: the only success exit is the clean end
 	e.Require("G4", db, []*fact{factCleanEnd})
 	c.eofProvenance(db, rl)
-	c.usedResults("G2.kept", db)
+	c.usedResults("G2.kept", db, rl)
 	c.scopeGuard("scope", len(scope), 4, "library functions reachable from the database decoder")
 	c.R.Floor("A-d.known-type", 1)
 	c.R.Floor("G4.clean-end", 1)
